@@ -155,9 +155,13 @@ func runExpandSpec(w *gen.World, o expandOpts) expandResult {
 			reusedOptions[key] = opts
 		}
 		opts.PathLoader = ld.load
+		snap := snapOpts(opts) // every field, unexported ones included
 		defer func() {
 			if opts.RelativeBase != w.Root || opts.SkipSchemas != o.Skip || opts.ContinueOnError != o.Continue || opts.AbsoluteCircularRef != o.Absolute {
 				r.OptionsChanged = fmt.Sprintf("RelativeBase %q -> %q (skip=%v continue=%v absolute=%v)", w.Root, opts.RelativeBase, opts.SkipSchemas, opts.ContinueOnError, opts.AbsoluteCircularRef)
+				delete(reusedOptions, key)
+			} else if after := snapOpts(opts); after != snap {
+				r.OptionsChanged = fmt.Sprintf("%s -> %s", snap, after)
 				delete(reusedOptions, key)
 			}
 		}()
